@@ -1,4 +1,5 @@
 """C01 — traversal is exact: every entry in the depth window, once, nothing else (static necessary conditions)."""
+import re
 from hirq import *  # noqa: F401,F403
 from core import Abort
 
@@ -420,6 +421,39 @@ def r6(ctx):
     ctx.floor(n, 3, "link-following stat calls in the walker", VISIT_DIR)
 
 
+
+def r7(ctx):
+    """every way out of the per-entry loop body of visit_dir before the descent is one of the reviewed classes: loop
+    exhaustion, the LIMIT stop (exactness decided by C06), propagation of a closed output.  Anything else (`continue`
+    after the archive block, an early `break`) drops the descent into, or the siblings after, some entry."""
+    h = ctx.anchor_hir(VISIT_DIR)
+    n = 0
+    for x in walk_exprs(h):
+        if x["k"] not in ("Continue", "Break", "Ret"):
+            continue
+        gs = guards_of(h, x) or []
+        texts = [guard_text(g) for g in gs]
+        if not any(g[0] == "loop" for g in gs) or not any("read_dir" in t for t in texts):
+            continue
+        n += 1
+        last = texts[-1] if texts else ""
+        cls = None
+        if x["k"] == "Break" and last.endswith("is Option::None {..}") and "Iterator::next" in last:
+            cls = "loop-exhausted"
+        elif x["k"] == "Break" and "self.query.limit" in last and "is_buffered" in last:
+            cls = "limit"
+        elif x["k"] == "Ret" and (last == "(!checked)" or ("Try::branch" in last and "ControlFlow::Break" in last)):
+            cls = "output-closed"
+        ctx.obligation(cls is not None)
+        if cls is None:
+            inner = [t for t in texts if "is_zip_archive" in t]
+            ctx.violation("visit_dir/early-exit/%s/%s" % (x["k"].lower(), re.sub(r"[^A-Za-z0-9_.!]+", "_", last)[:60]), ctx.where(VISIT_DIR, x),
+                          "`%s` inside the entry loop of visit_dir under `%s`%s: the entries it skips are neither descended into nor "
+                          "followed by their siblings, so rows of the depth window are lost" %
+                          (render(x), last, " (archive branch: a directory may carry an archive name)" if inner else ""))
+    ctx.covered("ways out of the per-entry loop of visit_dir, each in a reviewed class", n, distinct_keys=["loop-exhausted", "limit", "output-closed"])
+    ctx.floor(n, 8, "exits of the entry loop", VISIT_DIR)
+
 RULES = [
     ("C01-R1", "depth window: reporting and descent gates on the depth grid", r1),
     ("C01-R2", "no unlisted skip on the path to reporting an entry", r2),
@@ -428,6 +462,8 @@ RULES = [
     ("C01-R5", "symlink gate, visited inodes, default root", r5),
     ("C18-R3", "every directory is listed at most once when links are followed [shared with C18]", lambda ctx: __import__("c18").r3(ctx)),
     ("C01-R6", "follow-stat discipline of the walker", r6),
+    ("C01-R7", "no unreviewed way out of the per-entry loop before the descent", r7),
+    ("X-ROOTS", "root option defaults, Root::new and the per-root reset of parse_roots [shared]", lambda ctx: __import__("extra").root_defaults(ctx)),
 ]
 
 EXPLANATION = (
@@ -440,7 +476,8 @@ EXPLANATION = (
     "root and drained only by the top-level call; both recursive calls pass the same positional arguments with "
     "base_depth; every root is visited unconditionally with its own options; descent is guarded by ok_to_visit_dir, "
     "which refuses exactly symlinks unless `symlinks` is set; the default root is `.`. What read_dir yields, "
-    "canonicalisation, row order on a real tree and dedupe across overlapping roots are not decided.")
+    "canonicalisation, row order on a real tree and dedupe across overlapping roots are not decided."
+    ' Every way out of the per-entry loop is in a reviewed class (loop exhaustion, LIMIT, closed output); RootOptions::new yields the documented defaults and parse_roots starts every root of a comma list afresh.')
 ASSUMPTIONS = ["rustc's HIR faithfully represents the source; exporter and rule scripts are correct",
                "std::fs::read_dir yields every entry of a directory exactly once", "VecDeque push_back/pop_front is FIFO"]
 NOT_DECIDED = ["that read_dir yields every entry once", "canonicalisation and inode behaviour of the OS",
